@@ -2,8 +2,8 @@
     describes; ACL and policy filters return, in input order, exactly the paths
     they accept.  Property theorems only (lemmas in Lib/Regex.v, Proofs/PathPol.v). *)
 From Coq Require Import String Ascii.
-From Coq Require Import List NArith ZArith Bool.
-From Scion Require Import Lib.Check Lib.Regex Model.AddrFmt Model.PathPol Proofs.PathPol.
+From Coq Require Import List NArith ZArith Bool Lia.
+From Scion Require Import Lib.Check Lib.Regex Model.AddrFmt Model.PathPol Proofs.PathPol Proofs.PathPolShow.
 Import ListNotations.
 Import AddrFmt PathPol.
 Local Open Scope N_scope.
@@ -141,6 +141,49 @@ Proof.
 Qed.
 Print Assumptions C47_oracle_refuted.
 
+(** ---------------------------------------------------------------- audit follow-up: text <-> language
+    [show] prints an expression with every sub-expression in parentheses.  The
+    specification parser — lexer, hop parser, precedence climbing with the fuel
+    [2 * length ts + 4] — reads the printed text back as exactly the same
+    expression, for every expression whose AS numbers have a text (<= 2^48-1; no
+    path contains any other AS).  So the fuel is adequate on the image of [show],
+    and the language of a TEXT is tied to the denotation [Lseq] of the
+    expression it prints. *)
+Theorem C47_show_parses : forall e, seq_wf e -> new_sequence_spec (show e) = SSeq e.
+Proof. exact new_sequence_show. Qed.
+Print Assumptions C47_show_parses.
+
+Theorem C47_show_language : forall e, seq_wf e ->
+  exists e', new_sequence_spec (show e) = SSeq e' /\ forall w, Lseq e' w <-> Lseq e w.
+Proof. intros e Hw. exists e. split; [now apply new_sequence_show|reflexivity]. Qed.
+Print Assumptions C47_show_language.
+
+(** hence, without any hypothesis about what the parser returned: the sequence
+    filter built from the text of [e] keeps exactly the paths in the language of [e] *)
+Theorem C47_sequence_filter_exact_text : forall e ps, seq_wf e ->
+  seq_eval (new_sequence_spec (show e)) ps = filter (seq_accepts e) ps /\
+  forall p, In p (seq_eval (new_sequence_spec (show e)) ps) <->
+            In p ps /\ exists hs, path_hops (p_ifs p) = Some hs /\ Lseq e hs.
+Proof. intros e ps Hw. apply C47_sequence_filter_exact. now apply new_sequence_show. Qed.
+Print Assumptions C47_sequence_filter_exact_text.
+
+(** the token-level statement needs no text: any fuel from [cost e] on suffices *)
+Theorem C47_parser_fuel_adequate : forall e, seq_wf e ->
+  parse 3 4 (2 * length (atom_toks e) + 4) 0 (atom_toks e) = Some (e, []) /\
+  tokenize (show e) = Some (atom_toks e).
+Proof.
+  intros e Hw. split; [now apply parse_atom_toks|].
+  pose proof (new_sequence_show e Hw) as H. unfold new_sequence_spec, new_sequence in H.
+  destruct (show e) eqn:Es; [discriminate|]. rewrite <- Es in *.
+  destruct (tokenize (show e)) as [ts|] eqn:Et; [|discriminate].
+  unfold tokenize in Et. pose proof (atom_text_len e) as Hl.
+  assert (E : lex (S (length (show e))) (show e) = Some (atom_toks e)).
+  { replace (S (length (show e))) with (length (atom_toks e) + S (length (show e) - length (atom_toks e)))%nat by lia.
+    rewrite <- (app_nil_r (show e)) at 2. rewrite lex_atom by assumption. cbn [lex tapp]. now rewrite app_nil_r. }
+  congruence.
+Qed.
+Print Assumptions C47_parser_fuel_adequate.
+
 (** Non-vacuity: the specification parser has the regular-expression precedence,
     AS numbers are compared by value, and the filters do filter. *)
 Example C47_example :
@@ -160,3 +203,33 @@ Example C47_example :
   seq_result (new_sequence_spec (s2l "0*")) ps = Some [0; 1; 2] /\
   acl_result (mk_entries [(false, Some (1, 3, [0])); (true, None)]) true ps = AKept [1; 2].
 Proof. vm_compute. repeat split; reflexivity. Qed.
+
+(** Non-vacuity of C47_filter_exact: an actual policy with an ACL, a sequence and
+    weighted options; its hypotheses hold and the filter does what the theorem says. *)
+Example C47_filter_exact_example :
+  let acl := mk_entries [(false, Some (1, 3, [0])); (true, None)] in            (* - 1-3 ; + *)
+  let three := Pol None None None (Some (s2l "0 0 0")) [] in
+  let two := Pol None None None (Some (s2l "0 0")) [] in
+  let P := Pol None None (Some acl) (Some (s2l "1-1 0+")) [(2%Z, three); (1%Z, two)] in
+  let ia a := 1 * 2 ^ 48 + a in
+  let p0 := mk_path (0, ia 1, ia 2, [(ia 1, 1); (ia 2, 1)]) in
+  let p1 := mk_path (1, ia 1, ia 3, [(ia 1, 2); (ia 3, 1)]) in
+  let p2 := mk_path (2, ia 1, ia 4, [(ia 1, 1); (ia 2, 1); (ia 2, 2); (ia 4, 1)]) in
+  let p3 := mk_path (3, ia 2, ia 4, [(ia 2, 2); (ia 4, 1)]) in
+  acl_ok (Some acl) /\
+  desc (map (fun wq => match wq with (w, q) => (w, pol_filter new_sequence_spec q) end) [(2%Z, three); (1%Z, two)]) /\
+  ids (pol_filter new_sequence_spec P [p0; p1; p2; p3]) = [2] /\      (* the heavier option wins *)
+  ids (pol_filter new_sequence_spec P [p0; p1; p3]) = [0] /\          (* it keeps nothing: next weight *)
+  ids (filter (base_pred new_sequence_spec None None (Some acl) (Some (s2l "1-1 0+"))) [p0; p1; p2; p3]) = [0; 2] /\
+  new_sequence_spec (show (SCat (SHop (HPIsdAs 1 (Some 1))) (SPlus (SHop (HPIsd 0))))) =
+    SSeq (SCat (SHop (HPIsdAs 1 (Some 1))) (SPlus (SHop (HPIsd 0)))).
+Proof.
+  cbv zeta. split; [|split].
+  - cbn. split.
+    + repeat constructor; cbn; try discriminate; try (intros H; discriminate H).
+    + exists (true, None). split; [cbn; auto|reflexivity].
+  - cbn. split; [|split; [|exact I]].
+    + intros w' f' [[= <- <-]|[]]. lia.
+    + intros w' f' [].
+  - vm_compute. repeat split; reflexivity.
+Qed.
